@@ -41,6 +41,9 @@ def text_is_safe(text):
     for w in re.findall(r"[A-Za-z_][A-Za-z0-9_]*", text):
         if w.lower() in KEYWORDISH:
             return False
+        # digits swallow underscores: in '4_eN' the lexer reads '4_' and then the keyword EN
+        if w.lstrip("_0123456789").lower() in KEYWORDISH:
+            return False
     if re.search(r"(?<![0-9_])(2|8|16)#", text) or "%" in text:
         return False
     return True
